@@ -486,41 +486,46 @@ def extract_probes(emit):
 SECTIONS = [("versions", extract_versions), ("formatters", extract_formatters), ("assets", extract_assets), ("probes", extract_probes)]
 
 
-def generate() -> str:
-    lines: list[str] = [
-        "/- GENERATED by /verif/harness/extract.py from /repo's working tree — do not edit. -/",
-        "namespace Gen",
-        "",
-    ]
+FILES = {"versions": "Ver", "formatters": "Fmt", "assets": "Assets", "probes": "Assets"}
 
-    def emit(s: str = ""):
-        lines.append(s)
 
+def generate() -> dict[str, str]:
+    """one Lean file per group of sections, so that a changed table only rebuilds what depends on it"""
+    out: dict[str, list[str]] = {}
     for name, fn in SECTIONS:
-        emit(f"-- ---- {name} " + "-" * 60)
-        fn(emit)
-        emit()
-    emit("end Gen")
-    return "\n".join(lines) + "\n"
+        lines = out.setdefault(FILES[name], [
+            "/- GENERATED by /verif/harness/extract.py from /repo's working tree — do not edit. -/",
+            "namespace Gen",
+            "",
+        ])
+        lines.append(f"-- ---- {name} " + "-" * 60)
+        fn(lines.append)
+        lines.append("")
+    files = {k: "\n".join(v + ["end Gen"]) + "\n" for k, v in out.items()}
+    files["Tables"] = ("/- GENERATED: all regenerated tables. -/\n" + "".join(f"import FmtModel.Generated.{k}\n" for k in sorted(files)))
+    return files
 
 
 def main() -> int:
     try:
-        text = generate()
+        files = generate()
     except ExtractError as e:
         print(f"EXTRACT-FAILED: {e}")
         return 3
     except Exception as e:  # the code no longer imports, a table has an unexpected type, ...
         print(f"EXTRACT-FAILED: {type(e).__name__}: {e}")
         return 3
-    os.makedirs(os.path.dirname(OUT), exist_ok=True)
-    old = open(OUT).read() if os.path.exists(OUT) else None
-    if old != text:
-        with open(OUT, "w") as f:
-            f.write(text)
-        print("tables: rewritten")
-    else:
-        print("tables: unchanged")
+    d = os.path.dirname(OUT)
+    os.makedirs(d, exist_ok=True)
+    changed = []
+    for name, text in files.items():
+        path = os.path.join(d, name + ".lean")
+        old = open(path).read() if os.path.exists(path) else None
+        if old != text:
+            with open(path, "w") as f:
+                f.write(text)
+            changed.append(name)
+    print("tables: rewritten " + ",".join(changed) if changed else "tables: unchanged")
     return 0
 
 
